@@ -10,7 +10,7 @@ from ..gfi.common import run_for
 
 def run(chk, prog):
     n, obs = run_for(chk, prog, "C02", ALL)
-    chk.floor("obligations tagged C02", n, 40)
+    chk.floor("obligations tagged C02", n, 55)
     chk.explanation = "structural-induction obligations for C02: scores are sums of inner scores exactly once (SCORE-AGG, SCORE-GATE, base logpdf); each inner GFI call is an opaque atom (induction hypothesis), the derived provenance terms / linear forms are compared with the oracle table"
     for o in [o for o in obs.items if "C02" in o["props"]][:6]:
         chk.sample({"rule": o["rule"], "instance": o["instance"], "derived": o["derived"][:200], "expected": o["expected"][:160]})
